@@ -27,14 +27,14 @@ BUDGET_S = {'quick': 110, 'thorough': 540}
 NUMBA_THREADS = 2
 SUBJECTS = ['cpa', 'cpa_alt', 'dpa', 'anova', 'nicv', 'snr', 'mia', 'tbuild', 'tstatic', 'tdpa']
 KINDS = ['traces_list', 'data_list', 'data_none', 'rows_mismatch', 'traces_1d', 'trace_len', 'word_count', 'data_float', 'dpa_nonbinary',
-         'auto_big', 'auto_negative', 'memory_refused', 'data_int64', 'traces_float16', 'traces_3d', 'huge_value']
+         'auto_big', 'auto_negative', 'memory_refused', 'data_int64', 'traces_float16', 'traces_3d', 'huge_value', 'undeclared_hypothesis', 'late_rows']
 REQUIRED_COUNTERS = ['auto_partition_first_call_rejections', 'rejections_observed', 'rejections_first_call', 'rejections_later_call', 'state_after_rejection_compared',
                      'later_results_compared', 'analysis_process_rejections', 'analysis_run_interruptions', 'template_run_before_build']
 RULE = ('a case = (distinguisher in 10 classes | analysis class, rejection kind in 12 + 5 analysis-level kinds, number k <= 4 of accepted batches, '
         'precision, sub-seed); inside a case EVERY insertion position p in 0..k is executed; non-trivial = at least one call actually '
         'raised and the later history was compared with the twin; distinct by (subject, kind, k, precision, dtype, shapes)')
 ASSUMPTIONS = ['only calls that raise are judged (silent acceptance is counted, not judged)',
-               'faults raised inside _update after accumulation has started are out of scope (the property speaks of calls the distinguisher refuses)',
+               'refusals decided on the content of the batch inside _update (template-DPA hypothesis values that are no declared class, also in the last rows of a 33 000 - 70 000-trace batch) are judged like the argument checks; exceptions injected into a kernel are not',
                'same accepted batches and same dictated kernels => identical floating-point operations, compared bit-for-bit in the exact regime; '
                'template matching (BLAS products on float data) falls back to a 1e-6/1e-13 relative bound and counts the occurrence']
 MAX_INCONCLUSIVE_FRACTION = 0.0
@@ -56,6 +56,8 @@ def applicable(name, kind, p):
         return name not in ('cpa', 'cpa_alt', 'tstatic')
     if kind == 'data_int64':
         return name in subjects.PARTITIONED
+    if kind in ('undeclared_hypothesis', 'late_rows'):
+        return name == 'tdpa'                        # template-DPA matching refuses hypothesis values that are not declared classes
     if kind == 'huge_value':
         return p >= 1                                # accepted today (inf / nan results): judged only if a tree refuses it
     if kind == 'traces_float16':
@@ -93,6 +95,9 @@ def cases(tier, seed):
                 continue
             out.append(dict(gen='dist', subject=name, kind=kind, k=2, auto=True, precision=['float32', 'float64'][k % 2], sub=core.subseed('C16auto', seed, name, kind), must=True))
             k += 1
+    # MIA without explicit bin edges: the window estimated from a refused first batch must not survive the refusal
+    for kind in ('rows_mismatch', 'data_none', 'data_list', 'traces_list', 'data_float', 'data_int64', 'memory_refused', 'traces_1d'):
+        out.append(dict(gen='dist', subject='mia', kind=kind, k=2, mia_auto=True, precision='float64', sub=core.subseed('C16mia', seed, kind), must=True))
     for j, klass in enumerate(['CPAAttack', 'CPAReverse', 'DPAAttack', 'ANOVAAttack', 'NICVReverse', 'SNRAttack', 'MIAAttack', 'DPAReverse']):
         for akind in ('sf_missing_key', 'model_rejects_dtype', 'other_trace_length', 'rows_differ', 'preprocess_raises', 'run_refused'):
             out.append(dict(gen='analysis', klass=klass, kind=akind, precision=['float32', 'float64'][(j + k) % 2], sub=core.subseed('C16a', seed, klass, akind), must=True))
@@ -127,6 +132,20 @@ def _bad_call(kind, tr, d, rng, name):
     """(traces, data, context manager factory) of a call that the distinguisher is expected to refuse."""
     m = len(tr)
     d2 = None if d is None else np.asarray(d).reshape(m, -1)
+    if kind == 'undeclared_hypothesis':
+        # one hypothesis value that is no declared class, for a candidate other than the first when there are several
+        dd = np.array(d, copy=True)
+        flat = dd.reshape(m, -1)
+        flat[int(rng.integers(m)), int(rng.integers(1, flat.shape[1])) if flat.shape[1] > 1 else 0] = 200
+        return tr, dd
+    if kind == 'late_rows':
+        # a batch of tens of thousands of traces (longer than any plausible internal slice) whose LAST rows only carry the offending value
+        big = int(rng.choice([33000, 40000, 70000]))
+        reps = -(-big // m)
+        btr = np.tile(tr, (reps, 1))[:big]
+        dd = np.tile(d, (reps,) + (1,) * (np.ndim(d) - 1))[:big].copy()
+        dd.reshape(big, -1)[-int(rng.integers(1, 60)):, -1] = 200
+        return btr, dd
     if kind == 'traces_list':
         return tr.tolist(), d
     if kind == 'data_list':
@@ -256,6 +275,16 @@ def run_dist(case):
     auto = 'wide' if case.get('auto') else kind in ('auto_big', 'auto_negative')
     spec, traces, data, n, T, ws, tdtype = _workload(case, rng, auto=auto)
     sizes = _composition(rng, n, k)
+    if case.get('mia_auto'):
+        spec.pop('bin_edges', None)
+        spec['bins_number'] = int(rng.choice([4, 8, 16]))
+        # batches with clearly different ranges: the refused batch (rows taken anywhere) does not span the window of the first accepted one
+        traces = np.array(traces, copy=True)
+        traces[:sizes[0]] = np.clip(traces[:sizes[0]], -20, 20)
+        traces[0, :], traces[min(1, sizes[0] - 1), :] = -20, 20
+        if sizes[0] < 2:
+            return t.result(nontrivial=False, sig='mia_auto_first_batch_too_short', sample=dict(case=case))
+        t.count('mia_automatic_window_cases')
     kern = name in ('anova', 'nicv', 'snr', 'tbuild')
     kseq = [int(v) for v in rng.integers(0, 2, k)] if kern else None
     info = dict(subject=name, kind=kind, k=k, precision=case['precision'], n=n, T=T, ws=list(ws), tdtype=tdtype, sizes=sizes, partitions=spec.get('partitions'))
